@@ -9,14 +9,6 @@ EXTENDS QGrad, Json, IOUtils, TLC
 Tr == ndJsonDeserialize(IOEnv.TRACE_FILE)
 Cf == JsonDeserialize(IOEnv.CFG_FILE)
 VARIABLE i
-HardSig(x) == DClip(Add32(Scale2(x, -1), Half), Zero, One)
-HardTanh(x) == Add32(Scale2(HardSig(x), 1), <<-1, 0>>)
-SurrArg(c, x) ==
-  CASE c.cls = "tanh" -> HardTanh(x)
-    [] c.cls = "sigmoid" -> HardSig(x)
-    [] c.cls = "linear" -> Scale2(x, -Log2Exact(c.al))
-    [] OTHER -> x
-Pos(c, x) == QPos(SurrArg(c, x), StepE(c))
 SatOf(x) == LET a == DAbs(x) IN IF Less(a, One) THEN 0 ELSE IF Eq(a, One) THEN -1 ELSE 1
 
 Po2Grads(c, x) ==
